@@ -9,7 +9,8 @@
    right arity, arguments that are declared objects or constants of a conforming type; numerals);
    [spec_dump num sp] is what the text says and [dump_problem pb] what the parsed problem contains
    (objects with types in order, fact set, fluent map, goal literals in order, numeric goals as a multiset).
-   The model is Model/Problem.v in the configuration [cfg_fixed] = the current tree (fixes D19a-c, c7c8534).
+   The model is Model/Problem.v; [cfg_fixed] = [cfg_gt false] is the tree with the fixes D19a-c and c7c8534, [cfg_gt true] =
+   [Model.Problem.cfg_current] the tree as it is now (also D19e = 43c9edb, the partial repair of D19d).
 
    FULL STATEMENTS (C05_iff_statement, C05_faithful_statement in Proofs/C05_Main.v):
      accepted <-> well formed;   accepted -> dump equivalent to what the text says.
@@ -64,8 +65,8 @@
                                 what the normal form says, and the normal form passes the checks of C05_code_iff_typed
      C05_any_objects_example_thm  o0 declared twice (t2, then t1 inside a list inside a list), names pending across a list:
                                 outside the grammar, accepted, table and dump as stated; a superseded "- zz" is rejected
-   THE TREE WITH THE REPAIR PROPOSED FOR D19d (proposed_fixes/D19d.diff, not in /repo yet; model configuration [cfg_gt true],
-   [cfg_gt false] being [cfg_fixed]; Model.Problem.cfg_current says which one the correspondence check runs): an argument of
+   THE CURRENT TREE, WITH THE PARTIAL REPAIR OF D19d (committed to /repo as 43c9edb = D19e; model configuration [cfg_gt true] =
+   Model.Problem.cfg_current, which the correspondence check runs against; [cfg_gt false] is [cfg_fixed]): an argument of
    a numeric-goal fluent that IS a declared object / constant must have a conforming type.  Then
      C05_code_iff_typed      accepted <-> the checks of the repaired code ([wf_code_t true] = wf_code && goal_typed)
      C05_wf_split_typed      well formed && no repeated argument in a numeric goal
